@@ -121,6 +121,118 @@ RESOURCES = [
 def manifest(package_root):
     return {"packageRoot": package_root, "inputDataTypes": TYPES, "dependencyDataTypes": [], "resources": RESOURCES}
 
+# ----------------------------------------------------------------------------- Schemas.tla
+
+def tla_str(x): return '"' + x.replace('\\', '\\\\').replace('"', '\\"') + '"'
+
+def tla_type(t):
+    if "primitive" in t: return '[k |-> "prim", p |-> %s]' % tla_str(t["primitive"])
+    if t.get("rawRecord"): return '[k |-> "raw"]'
+    if "reference" in t: return '[k |-> "ref", n |-> %s]' % tla_str(t["reference"]["name"])
+    if "array" in t: return '[k |-> "arr", e |-> %s]' % tla_type(t["array"])
+    if "map" in t: return '[k |-> "map", e |-> %s]' % tla_type(t["map"])
+    raise ValueError(t)
+
+BYTE_TOKENS = {0: "b00", 1: "b01"}
+
+def str_tokens(text):
+    """A default literal's text as a TLA+ sequence of single-character tokens (exact characters)."""
+    out = []
+    for ch in text:
+        o = ord(ch)
+        if o < 0x20 or o == 0x7f: out.append("x%02X" % o)
+        else: out.append(ch)
+    return "<<" + ", ".join(tla_str(c) for c in out) + ">>"
+
+def find_type(name):
+    for t in TYPES:
+        for kind, d in t.items():
+            if d["name"] == name: return kind, d
+    raise KeyError(name)
+
+def tla_default(t, lit):
+    """Abstract value (AV) of the JSON default literal `lit` for restli type t."""
+    if "primitive" in t:
+        p = t["primitive"]
+        if p in ("int32", "int64"): return '[t |-> "num", p |-> %s, v |-> %s]' % (tla_str(p), tla_str(str(lit)))
+        if p in ("float32", "float64"): return '[t |-> "num", p |-> %s, v |-> %s]' % (tla_str(p), tla_str(repr(float(lit)) if not isinstance(lit, str) else lit))
+        if p == "bool": return '[t |-> "bool", v |-> %s]' % tla_str("true" if lit else "false")
+        if p == "string": return '[t |-> "str", v |-> %s]' % str_tokens(lit)
+        if p == "bytes": return '[t |-> "bytes", v |-> %s]' % str_tokens(lit)
+    if "array" in t: return '[t |-> "arr", v |-> <<%s>>]' % ", ".join(tla_default(t["array"], x) for x in lit)
+    if "map" in t: return '[t |-> "map", v |-> <<%s>>]' % ", ".join('[k |-> %s, v |-> %s]' % (str_tokens(k), tla_default(t["map"], v)) for k, v in lit.items())
+    if "reference" in t:
+        kind, d = find_type(t["reference"]["name"])
+        if kind == "enum": return '[t |-> "enum", v |-> %s]' % tla_str(lit)
+        if kind == "fixed": return '[t |-> "fixed", v |-> %s]' % str_tokens(lit)
+        if kind == "typeref": return tla_default({"primitive": d["type"]}, lit)
+        if kind == "record":
+            fs = all_fields(d)
+            return '[t |-> "rec", v |-> <<%s>>]' % ", ".join('[k |-> %s, v |-> %s]' % (tla_str(f["name"]), tla_default(f["type"], lit[f["name"]])) for f in fs if f["name"] in lit)
+        if kind == "standaloneUnion":
+            (alias, v), = lit.items()
+            m = [m for m in d["Union"]["Members"] if m["Alias"] == alias][0]
+            return '[t |-> "union", a |-> %s, v |-> %s]' % (tla_str(alias), tla_default(m["Type"], v))
+    raise ValueError((t, lit))
+
+def all_fields(rec):
+    out = []
+    for inc in rec.get("includes", []):
+        out += all_fields(find_type(inc["name"])[1])
+    return out + rec["fields"]
+
+def schemas_tla():
+    lines = ["------------------------------ MODULE Schemas ------------------------------",
+             "(* GENERATED by schemas/vt.py from the VT schema family -- do not edit.  The same source produces the v2      *)",
+             "(* generator manifest, so specification and bindings cannot drift.                                           *)",
+             "EXTENDS Sequences", "", "NoDefault == [t |-> \"none\"]", ""]
+    entries = []
+    for t in TYPES:
+        for kind, d in t.items():
+            n = d["name"]
+            if kind == "enum":
+                entries.append('%s |-> [k |-> "enum", syms |-> <<%s>>]' % (n, ", ".join(tla_str(x) for x in d["Symbols"])))
+            elif kind == "fixed":
+                entries.append('%s |-> [k |-> "fixed", size |-> %d]' % (n, d["Size"]))
+            elif kind == "typeref":
+                entries.append('%s |-> [k |-> "typeref", p |-> %s]' % (n, tla_str(d["type"])))
+            elif kind == "record":
+                fs = []
+                for f in all_fields(d):
+                    dv = "NoDefault"
+                    if "defaultValue" in f:
+                        dv = tla_default(f["type"], json.loads(f["defaultValue"]))
+                    fs.append('[n |-> %s, ty |-> %s, opt |-> %s, def |-> %s]' % (tla_str(f["name"]), tla_type(f["type"]), "TRUE" if f["isOptional"] else "FALSE", dv))
+                entries.append('%s |-> [k |-> "record", fields |-> <<\n      %s>>]' % (n, ",\n      ".join(fs)))
+            elif kind == "standaloneUnion":
+                ms = ", ".join('[a |-> %s, ty |-> %s]' % (tla_str(m["Alias"]), tla_type(m["Type"])) for m in d["Union"]["Members"])
+                entries.append('%s |-> [k |-> "union", null |-> %s, members |-> <<%s>>]' % (n, "TRUE" if d["Union"]["HasNull"] else "FALSE", ms))
+            elif kind == "complexKey":
+                kf = all_fields(find_type(d["Key"]["name"])[1])
+                fs = ['[n |-> %s, ty |-> %s, opt |-> %s, def |-> NoDefault]' % (tla_str(f["name"]), tla_type(f["type"]), "TRUE" if f["isOptional"] else "FALSE") for f in kf]
+                fs.append('[n |-> "$params", ty |-> [k |-> "ref", n |-> %s], opt |-> TRUE, def |-> NoDefault]' % tla_str(d["Params"]["name"]))
+                entries.append('%s |-> [k |-> "record", fields |-> <<\n      %s>>]' % (n, ",\n      ".join(fs)))
+    lines.append("SchemaOf == [\n  " + ",\n  ".join(entries) + "]")
+    lines.append("")
+    lines.append("SchemaNames == DOMAIN SchemaOf")
+    lines.append("=============================================================================")
+    return "\n".join(lines) + "\n"
+
 if __name__ == "__main__":
     if sys.argv[1] == "manifest":
         json.dump(manifest(sys.argv[2]), sys.stdout, indent=1)
+    elif sys.argv[1] == "enums":
+        json.dump({d["name"]: d["Symbols"] for t in TYPES for k, d in t.items() if k == "enum"}, sys.stdout)
+    elif sys.argv[1] == "registry":
+        # Go source: schema name -> reflect.Type of the generated type
+        pkg = sys.argv[2]
+        print("// GENERATED by schemas/vt.py\npackage main\n\nimport (\n\t\"reflect\"\n\n\tvt \"%s/vt\"\n)\n\nvar registry = map[string]reflect.Type{" % pkg)
+        for t in TYPES:
+            for k, d in t.items():
+                n = d["name"]
+                if k == "enum": print('\t"%s": reflect.TypeOf(vt.%s(0)),' % (n, n))
+                elif k == "typeref": print('\t"%s": reflect.TypeOf(vt.%s(%s)),' % (n, n, '""' if d["type"] == "string" else "0"))
+                else: print('\t"%s": reflect.TypeOf(vt.%s{}),' % (n, n))
+        print("}")
+    elif sys.argv[1] == "tla":
+        sys.stdout.write(schemas_tla())
